@@ -185,7 +185,11 @@ pub fn main(args: &[String], w: &mut dyn Write) {
                 let kind = *r.pick(&["equal", "no-eol", "escaped", "plain"]);
                 let e = rand_str(&mut r, &['a', 'b', '\\', 't', 'x', '0', '1', ' ', 'é', '\t'], 6);
                 if e.ends_with(')') || e.ends_with(' ') { continue; }
-                let mut line: Vec<u8> = match r.below(4) {
+                // Cram compatibility of the escaped kind: a trailing ` (no-eol)` is not part of the expression
+                let body = e.clone();
+                let e = if kind == "escaped" && r.chance(1, 5) { format!("{} (no-eol)", e) } else { e };
+                let mut line: Vec<u8> = match r.below(5) {
+                    4 => body.replace("\\t", "\t").replace("\\\\", "\\").into_bytes(),
                     0 => e.clone().into_bytes(),
                     1 => e.replace("\\t", "\t").replace("\\\\", "\\").into_bytes(),
                     2 => mutate(&mut r, &e).into_bytes(),
